@@ -17,12 +17,40 @@ def check(ctx):
   ctx.rule('C05.R2', 'join ignores members already present, otherwise records the endpoint and tells the subclass; leave removes the endpoint (total on unknown members) and tells the subclass')
   ctx.rule('C05.R3', 'the subclass step keeps endpoints(heap) U idle = keys(servers): heap add/remove protocol; aperture puts a joiner in exactly one of heap/idle, removes a leaver from both, and moves endpoints between them only as a pair of operations')
   ctx.decline('the equality itself over all histories and the traffic-based observation are not decided')
+  load_success_opens(ctx)
   r1(ctx)
   r2(ctx)
   r3(ctx)
   add_remove_atomic(ctx)
   from . import c03 as _c03
   _c03.find_node(ctx, 'C05.R3')
+
+
+def load_success_opens(ctx, rule='C05.R1'):
+  """Whenever the server set provider answered (Initialize and GetServers returned), the open loop installs what it got -- an EMPTY member list
+  included -- and opens the gate; the sleep-and-retry branch is for a provider that raised."""
+  prog = ctx.prog
+  f = prog.func(B, 'LoadBalancerSink._OpenImpl')
+  why = ('a server set that has no member yet is a valid answer: the balancer opens (calls fail fast with a no-members error, joins are applied as they arrive); '
+         'treating it as a failed load retries for ever, Open() never completes and every notification and call is parked behind it')
+
+  def mr(call, armed):
+    return ['Exception'] if call_attr(call) in ('Initialize', 'GetServers') else []
+  n = 0
+  for ev, ex in enum_paths(ctx, f, mr, unroll=1):
+    got = [i for i, e in enumerate(ev) if e.kind == 'call' and call_attr(e.node) == 'GetServers']
+    if not got or any(e.kind == 'call' and call_attr(e.node) in ('Initialize', 'GetServers') and e.info for e in ev):
+      continue       # the provider raised on this path
+    after = ev[got[0] + 1:]
+    if any(e.kind == 'call' and call_attr(e.node) in ('Initialize', 'GetServers') for e in after):
+      continue       # a second round of the loop: judged from its own start
+    n += 1
+    slept = [e for e in after if e.kind == 'call' and call_name(e.node) in ('gevent.sleep', 'time.sleep')]
+    gate = [e for e in after if e.kind == 'call' and U(e.node.func).endswith('init_done.set')]
+    closed = ex[0] == 'ret' and not gate and any(e.kind == 'cond' and 'Closed' in U(e.node) for e in after)
+    ctx.ob(rule, f, 'a member list that was delivered is installed (the gate opens) without another retry', (bool(gate) and not slept) or (closed and not slept),
+           'a path on which Initialize and GetServers returned normally %s' % ('sleeps and retries (the answer is tested for emptiness / truth, not for failure)' if slept else 'ends without opening the gate'), why)
+  ctx.floor(rule, 'load paths of _OpenImpl on which the provider answered', n, 1)
 
 
 def r1(ctx):
